@@ -92,7 +92,7 @@ def run(m, chk):
         "(the second index of the evaluator built in eval depends on self.degree); the evaluator's result depends on nodes, knot vector, both indices and weights; span(nodes) precedes the table lookup so outside nodes raise "
         "ValueError which escapes. The values (non-negativity, support, partition of unity) and negative-index / slice semantics are not decided."
     )
-    chk.decides = ["ROW-INDEX (what the evaluator stores for an integer first index selects row i mod npts of the npts-row table, for every j)", "SLICE-REBUILD (a slice index resolved against npts is never rebuilt with slice(*s.indices(n)), which loses negative steps)", "INDEX-RANGE (the validators accept exactly -npts .. npts-1 and 0 .. degree)", "GATE(index validators)", "DEP-MAY", "GATE-SPAN", "X-ESCAPE", "PURE", "FRESH-EVALUATOR (f(u) applies an evaluator built in the same call, never a kept one)"]
+    chk.decides = ["WEIGHTS-EVERY-DEGREE (the evaluator of f[i, j] keeps the weights of f whatever j is: the stored value is not chosen by a test on the sub-degree)", "ROW-INDEX (what the evaluator stores for an integer first index selects row i mod npts of the npts-row table, for every j)", "SLICE-REBUILD (a slice index resolved against npts is never rebuilt with slice(*s.indices(n)), which loses negative steps)", "INDEX-RANGE (the validators accept exactly -npts .. npts-1 and 0 .. degree)", "GATE(index validators)", "DEP-MAY", "GATE-SPAN", "X-ESCAPE", "PURE", "FRESH-EVALUATOR (f(u) applies an evaluator built in the same call, never a kept one)"]
     chk.not_decided = ["Function(U)[i, j](u) = N_i,j(u) as values", "partition of unity", "negative indices / slices select the right rows"]
     ctx = r.root(GI)
     build = [c for c in ctx.calls if any(f.qual == FE + "__init__" for f in c.callees)]
@@ -108,6 +108,9 @@ def run(m, chk):
             ok = set(excs) <= raised
             chk.ob("GATE-INDEX", f"{fi.qual} raises {' and '.join(excs)}", ok, loc=f"functions.py:{fi.node.lineno}", detail="" if ok else f"{fi.qual} raises only {sorted(x for x in raised if x)}", func=fi.qual, construct="validator exception types")
     row_index(r, chk, FE + "__init__")
+    from .extra import weights_every_degree
+
+    weights_every_degree(r, chk, "functions.FunctionEvaluator.__init__")
     from .extra import slice_rebuild
 
     slice_rebuild(r, chk, ["functions"])
